@@ -66,7 +66,12 @@ def run_property(prop: str, tier: str, repo: str, only=None, quiet=False) -> int
           view = 'expanded: ' + ', '.join(what)
           break
     if err is not None:
-      raise err
+      # a violation established before an anchor went missing takes
+      # precedence (as it does over the vacuity guard): it names the
+      # construct, the analysis error only says the rest is undecided
+      if not report.unlisted(rs):
+        raise err
+      rs.observe(f'analysis incomplete after the reported violation(s): {err}')
     if only is not None:
       rs.obs = [o for o in rs.obs if o.key() == only]
       rs.rules_run = {}
